@@ -12,7 +12,7 @@
    (C07_second_removal_noop).  Failing-send cases at stream level: correspondence and spec oracle. *)
 From Coq Require Import ZArith List Bool Lia.
 From Mgr Require Import Gen.MgrDefs Model.Manager Proofs.ListLemmas Proofs.RegInv Proofs.Frame Proofs.RegTraverse Proofs.RegTop
-                        Proofs.Connect Proofs.StepInv Proofs.C05Inv Proofs.Exact Proofs.DepartExact Proofs.LoopExact.
+                        Proofs.Connect Proofs.StepInv Proofs.C05Inv Proofs.Exact Proofs.DepartExact Proofs.LoopExact Proofs.OnlyRecipients Proofs.HealthyServed.
 Import ListNotations.
 Open Scope Z_scope.
 
@@ -104,6 +104,18 @@ Proof.
   destruct (forward_general_reachable cfg fuel es u s k p hh H1 H2 H3 H4 H5 H6 H7 H8) as (fr & hh' & s' & E & Ho & _ & Hp & _).
   exists fr, s'. split; [exact E|]. split; [exact Ho|exact Hp].
 Qed.
+
+(* the same with NO assumption about the other recipients or the notice subscribers (any number of failures, any
+   nesting): a recipient that can accept data and whose own sends do not fail gets exactly one whole copy of the very
+   message during whose delivery the departures were discovered, and is still a subscriber afterwards *)
+Theorem C07_inflight_delivery_unconditional : forall cfg fuel es u s (k : nat) h p c s',
+  run cfg fuel es = Ok u s -> h_extra h <> 0 -> h_type h <> ALL_MESSAGE_TYPES ->
+  bad_dest_mod (h_dst_mod h) = false -> bad_dest_host (h_dst_host h) = false ->
+  In c (snapshot s (h_type h)) -> zmem c (wl s) = true -> eligible (h_dst_mod h) s c = true ->
+  flookup c (faults s) = None ->
+  forward cfg k h p s = Ok tt s' ->
+  exists suf, out s' = out s ++ suf /\ served_once h p c suf /\ still_healthy c s s'.
+Proof. exact healthy_recipient_served_reachable. Qed.
 
 (* non-vacuity: a subscriber whose write fails during a delivery is gone afterwards, the other
    subscriber still got the message, and one CLIENT_CLOSED was published (to the monitor, conn 3) *)
